@@ -1703,7 +1703,9 @@ def integer_divide(lhs, rhs, ctx):
     """
     ts = vy_type(lhs, rhs)
     return {
-        (NUMBER_TYPE, NUMBER_TYPE): lambda: 0 if rhs == 0 else lhs // rhs,
+        (NUMBER_TYPE, NUMBER_TYPE): lambda: 0
+        if rhs == 0
+        else vyxalify(sympy.floor(sympy.sympify(lhs) / rhs)),
         (NUMBER_TYPE, str): lambda: divide(lhs, rhs, ctx=ctx)[0],
         (str, NUMBER_TYPE): lambda: divide(rhs, lhs, ctx=ctx)[0],
         (ts[0], types.FunctionType): lambda: foldl(
